@@ -21,6 +21,11 @@ def gen_cases(tier, seed, n_grammars, profiles=("general",), reprs=workload.REPR
                 d = grammars.reordered(d, rng, move_start=str(desc.get("name", "")).startswith(("general", "fx_layers", "fx_nested")))
             if expansion_share and rng.random() < expansion_share:
                 d["expansion"] = True
+            if not d.get("python") and pyrandom.Random(f"str-{seed}-{gi}-{rk}-{dk}").random() < 0.2:
+                # declared with STRING annotations (postponed evaluation / quoted forward references), which the library
+                # resolves anew on every expansion: every refinement is a new object each time
+                d["_string_annotations"] = True
+                d["name"] = str(d.get("name", "g")) + "~str"
             yield {
                 "desc": d,
                 "repr": rk,
@@ -59,6 +64,8 @@ def open_case(case, rec):
         built.dispose()
         rec.count("unproductive_grammar")
         return None
+    if case["desc"].get("_string_annotations"):
+        rec.count("cases_declared_with_string_annotations")
     return Ctx(case, built, g, model, md + case.get("extra_depth", 0), rec)
 
 
